@@ -7,6 +7,7 @@ import Acra.Drv.Ch10
 import Acra.Drv.Net
 import Acra.Drv.Golay7
 import Acra.Drv.Ch11
+import Acra.Drv.Extra
 namespace Acra.Drv
 def allCodecs : List Codec := List.flatten [
   ftiCodecs,
@@ -15,7 +16,8 @@ def allCodecs : List Codec := List.flatten [
   ch10Codecs,
   NetC.netCodecs,
   golay7Codecs,
-  Ch11.ch11Codecs
+  Ch11.ch11Codecs,
+  ExtraC.extraCodecs
 ]
 def allFuncs : List Func := List.flatten [
   ftiFuncs,
@@ -26,6 +28,7 @@ def allFuncs : List Func := List.flatten [
   ch10Funcs,
   NetC.netFuncs,
   golay7Funcs,
-  Ch11.ch11Funcs
+  Ch11.ch11Funcs,
+  ExtraC.extraFuncs
 ]
 end Acra.Drv
